@@ -13,7 +13,8 @@
    for longer insertion lists they are tied to the code by the correspondence check and the exact oracle only. *)
 From Coq Require Import List QArith Reals Qreals Lia Lra Arith Bool ZArith.
 From NV Require Import Scalar.Ops Model.Common Model.Basis Model.KnotIns Model.InsertKnot Model.KnotRefine
-  Proofs.Boehm Proofs.BasisR Proofs.KnotInsR Proofs.InsertKnotR Proofs.KnotRefineR Proofs.RefineR.
+  Proofs.Boehm Proofs.BasisR Proofs.KnotInsR Proofs.InsertKnotR Proofs.KnotRefineR Proofs.RefineR
+  Run.InsertKnotH.   (* comparison helpers of the correspondence families: kept in the build closure of this file *)
 Import ListNotations.
 
 (* [G] density d: between two consecutive listed knots l_i < l_{i+1} the bisected list contains exactly the points
